@@ -117,6 +117,7 @@ def svdstf(env):
         rec.clear()
         geo.svdstf(src, tgt, with_scale=False)
         env.eq('with_scale=False: rigid optimum', rec[0][:, 0:3], Rs)
+        env.eq('with_scale=False: translation is mean(target) - R* mean(source) (no scale anywhere)', rec[0][:, 3:4], ct.transpose(-1, -2) - Rs @ cs.transpose(-1, -2))
     else:
         rng = env.rng
         n = rng.choice([3, 4, 6, 20])
@@ -130,6 +131,12 @@ def svdstf(env):
         Rk, ck, tk = kabsch_numeric(T, src, tgt, True)
         res = lambda sR, t: float((((src @ sR.T) + t.T - tgt) ** 2).sum())
         env.holds('scaled rotation block is c* R*', res(M[:, 0:3], M[:, 3:4]) <= res(ck * Rk, tk) * (1 + 1e-9) + 1e-12)
+        rec.clear()
+        geo.svdstf(src, tgt, with_scale=False)
+        M0 = rec[0]
+        R0, _, t0 = kabsch_numeric(T, src, tgt, False)
+        env.holds('with_scale=False: rigid optimum', res(M0[:, 0:3], M0[:, 3:4]) <= res(R0, t0) * (1 + 1e-9) + 1e-12)
+        env.holds('with_scale=False: translation is mean(target) - R* mean(source) (no scale anywhere)', res(M0[:, 0:3], M0[:, 3:4]) <= res(R0, t0) * (1 + 1e-9) + 1e-12)
 
 
 @obligation('C17.ICP.iteration', functions=['pypose.module.icp:ICP.forward'], max_paths=8,
